@@ -1,15 +1,20 @@
 package clientinterceptors
 
-// C01 — gRPC client integration: a run of benign outcomes (nil, non-status
-// errors, context.Canceled, every code outside the failing five, plus at most
-// five failing outcomes) sent through BreakerInterceptor is never rejected and
-// every invoker result is returned unchanged; a run made only of one failing
-// code is cut off.
+// C01 — gRPC client integration. Every (target, method) pair is its own breaker
+// name. A case drives 2..3 targets x 1..2 methods, each name with its own
+// outcome script, interleaved in generated chunks:
+//   benign  nil, non-status errors, context.Canceled, every code outside the
+//           failing five, plus at most five failing outcomes: never rejected,
+//           whatever happens under the other names;
+//   failing >= 200 outcomes of one failing code: cut off at least once;
+//   mixed   arbitrary outcomes (background load, only the pass-through of the
+//           invoker's result is judged).
 
 import (
 	"context"
 	"errors"
 	"fmt"
+	"sort"
 	"sync/atomic"
 	"testing"
 	"time"
@@ -18,6 +23,7 @@ import (
 	"github.com/gotid/god/lib/logx"
 	"google.golang.org/grpc"
 	gcodes "google.golang.org/grpc/codes"
+	"google.golang.org/grpc/credentials/insecure"
 	"google.golang.org/grpc/status"
 	"pgregory.net/rapid"
 	"verif.local/kit"
@@ -25,10 +31,17 @@ import (
 
 func init() { logx.Disable() }
 
+type c01Step struct {
+	N int `json:"n"` // name index = target*NM + method
+	O int `json:"o"` // 0..16 gRPC code, 100 nil, 101 plain error, 102 context.Canceled
+}
+
 type c01RunCase struct {
-	Benign bool  `json:"benign"`
-	Out    []int `json:"out"`            // per call: 0..16 gRPC code, 100 nil, 101 plain error, 102 context.Canceled
-	Skew   int64 `json:"skew,omitempty"` // ns slept before the breaker is created (varies its PRNG seed)
+	NT    int       `json:"nt"`   // targets (client) / 1 (server)
+	NM    int       `json:"nm"`   // methods
+	Kind  []int     `json:"kind"` // per name: 0 benign, 1 failing, 2 mixed
+	Steps []c01Step `json:"steps"`
+	Skew  int64     `json:"skew,omitempty"` // ns slept first (varies the breakers' PRNG seeds)
 }
 
 var (
@@ -50,6 +63,15 @@ var (
 	}()
 )
 
+func c01IsFailing(o int) bool {
+	for _, f := range c01Failing {
+		if f == o {
+			return true
+		}
+	}
+	return false
+}
+
 func c01Outcome(o int) error {
 	switch o {
 	case 100:
@@ -62,85 +84,151 @@ func c01Outcome(o int) error {
 	return status.Error(gcodes.Code(o), "c01")
 }
 
-func c01GenRun(rt *rapid.T) c01RunCase {
-	c := c01RunCase{Benign: rapid.IntRange(0, 3).Draw(rt, "benign") != 0}
-	c.Skew = rapid.Int64Range(0, 1_000_000_000).Draw(rt, "skew")
-	n := rapid.IntRange(200, 400).Draw(rt, "n")
-	if c.Benign {
-		// one dominant benign outcome or a mixture, plus at most five failing ones
-		var pool []int
-		if rapid.Bool().Draw(rt, "single") {
-			pool = []int{rapid.SampledFrom(c01BenignIn).Draw(rt, "the")}
-		} else {
-			pool = c01BenignIn
+// c01Interleave merges the per-name scripts in generated chunks (so that one
+// name may run 300 calls in a row while another waits, or strictly alternate).
+func c01Interleave(rt *rapid.T, scripts [][]int) []c01Step {
+	pos := make([]int, len(scripts))
+	var steps []c01Step
+	for {
+		var active []int
+		for n := range scripts {
+			if pos[n] < len(scripts[n]) {
+				active = append(active, n)
+			}
 		}
-		for i := 0; i < n; i++ {
-			c.Out = append(c.Out, rapid.SampledFrom(pool).Draw(rt, "o"))
+		if len(active) == 0 {
+			return steps
 		}
-		nf := rapid.IntRange(0, 5).Draw(rt, "nfail")
-		for i := 0; i < nf; i++ {
-			c.Out[rapid.IntRange(0, n-1).Draw(rt, "pos")] = rapid.SampledFrom(c01Failing).Draw(rt, "f")
-		}
-	} else {
-		f := rapid.SampledFrom(c01Failing).Draw(rt, "the")
-		for i := 0; i < n; i++ {
-			c.Out = append(c.Out, f)
+		n := rapid.SampledFrom(active).Draw(rt, "name")
+		chunk := rapid.SampledFrom([]int{1, 1, 2, 5, 20, 100, 400}).Draw(rt, "chunk")
+		for ; chunk > 0 && pos[n] < len(scripts[n]); chunk-- {
+			steps = append(steps, c01Step{N: n, O: scripts[n][pos[n]]})
+			pos[n]++
 		}
 	}
-	return c
 }
 
-// c01Judge: shared verdict logic. call(i, outcome) runs one request and reports
-// whether the protected function ran and what came back.
-func c01Judge(t *testing.T, c c01RunCase, call func(name string, want error) (ran bool, got error)) (v kit.Verdict) {
-	var fail string
-	rejected := 0
-	nfail := 0
-	isFailing := map[int]bool{}
-	for _, f := range c01Failing {
-		isFailing[f] = true
+func c01GenRun(minT, maxT int) func(rt *rapid.T) c01RunCase {
+	return func(rt *rapid.T) c01RunCase {
+		c := c01RunCase{NT: rapid.IntRange(minT, maxT).Draw(rt, "nt"), NM: rapid.IntRange(1, 2).Draw(rt, "nm")}
+		if minT == 1 && maxT == 1 {
+			c.NM = rapid.IntRange(1, 4).Draw(rt, "nm4")
+		}
+		c.Skew = rapid.Int64Range(0, 1_000_000_000).Draw(rt, "skew")
+		var scripts [][]int
+		for n := 0; n < c.NT*c.NM; n++ {
+			kind := rapid.SampledFrom([]int{0, 0, 1, 1, 2}).Draw(rt, "kind")
+			c.Kind = append(c.Kind, kind)
+			var s []int
+			switch kind {
+			case 0:
+				ln := rapid.IntRange(200, 300).Draw(rt, "n")
+				pool := c01BenignIn
+				if rapid.Bool().Draw(rt, "single") {
+					pool = []int{rapid.SampledFrom(c01BenignIn).Draw(rt, "the")}
+				}
+				for i := 0; i < ln; i++ {
+					s = append(s, rapid.SampledFrom(pool).Draw(rt, "o"))
+				}
+				nf := rapid.IntRange(0, 5).Draw(rt, "nfail")
+				for i := 0; i < nf; i++ {
+					s[rapid.IntRange(0, ln-1).Draw(rt, "pos")] = rapid.SampledFrom(c01Failing).Draw(rt, "f")
+				}
+			case 1:
+				ln := rapid.IntRange(200, 300).Draw(rt, "n")
+				f := rapid.SampledFrom(c01Failing).Draw(rt, "the")
+				for i := 0; i < ln; i++ {
+					s = append(s, f)
+				}
+			default:
+				ln := rapid.IntRange(20, 200).Draw(rt, "n")
+				all := append(append([]int{}, c01BenignIn...), c01Failing...)
+				for i := 0; i < ln; i++ {
+					s = append(s, rapid.SampledFrom(all).Draw(rt, "o"))
+				}
+			}
+			scripts = append(scripts, s)
+		}
+		c.Steps = c01Interleave(rt, scripts)
+		return c
 	}
+}
+
+// c01Judge: every name must behave as an independent breaker. call(run, t, m,
+// want) performs one request under name (t,m) and reports whether the protected
+// function ran and what came back.
+func c01Judge(t *testing.T, c c01RunCase, call func(run int64, ti, mi int, want error) (ran bool, got error)) (v kit.Verdict) {
+	var fail string
+	k := c.NT * c.NM
+	rejected := make([]int, k)
+	nfail := make([]int, k)
+	calls := make([]int, k)
 	res := kit.Bubble(t, func() {
 		if c.Skew > 0 {
 			time.Sleep(time.Duration(c.Skew))
 		}
-		name := fmt.Sprintf("/verif.C01/run%d", atomic.AddInt64(&c01NameSeq, 1))
-		for i, o := range c.Out {
-			want := c01Outcome(o)
-			if isFailing[o] {
-				nfail++
+		run := atomic.AddInt64(&c01NameSeq, 1)
+		for i, st := range c.Steps {
+			n := st.N % k
+			want := c01Outcome(st.O)
+			if c01IsFailing(st.O) {
+				nfail[n]++
 			}
-			ran, got := call(name, want)
+			calls[n]++
+			ran, got := call(run, n/c.NM, n%c.NM, want)
+			what := fmt.Sprintf("step %d (target %d, method %d, call %d of that name, outcome %v)", i, n/c.NM, n%c.NM, calls[n], want)
 			if !ran {
-				rejected++
+				rejected[n]++
 				if got != breaker.ErrServiceUnavailable {
-					fail = fmt.Sprintf("call %d: protected function not run but result is %v", i, got)
+					fail = fmt.Sprintf("%s: protected function not run but result is %v", what, got)
 					return
 				}
-				if c.Benign {
-					fail = fmt.Sprintf("call %d rejected by the breaker after only benign outcomes and %d (<=5) failing ones", i, nfail)
+				if c.Kind[n] == 0 {
+					fail = fmt.Sprintf("%s rejected by the breaker although this name recorded only benign outcomes and %d (<=5) failing ones; kinds of all names: %v", what, nfail[n], c.Kind)
 					return
 				}
 				continue
 			}
 			if got != want {
-				fail = fmt.Sprintf("call %d: returned %v, protected function returned %v", i, got, want)
+				fail = fmt.Sprintf("%s: returned %v, protected function returned %v", what, got, want)
 				return
 			}
 		}
-		if !c.Benign && rejected == 0 {
-			fail = fmt.Sprintf("%d consecutive outcomes %v were all admitted: the breaker never cut off a dependency that keeps failing", len(c.Out), c01Outcome(c.Out[0]))
+		for n := 0; n < k; n++ {
+			if c.Kind[n] == 1 && rejected[n] == 0 {
+				fail = fmt.Sprintf("name (target %d, method %d): %d consecutive failing outcomes were all admitted: the breaker never cut off a dependency that keeps failing", n/c.NM, n%c.NM, calls[n])
+				return
+			}
 		}
 	})
-	v.NonTrivial = true
-	if c.Benign {
-		v.Classes = append(v.Classes, "benign-run")
-		if nfail > 0 {
-			v.Classes = append(v.Classes, "benign-run-with<=5-failures")
+	classes := map[string]bool{}
+	hasB, hasF := false, false
+	for n, kd := range c.Kind {
+		classes[[]string{"benign-name", "failing-name", "mixed-name"}[kd]] = true
+		if kd == 0 {
+			hasB = true
+			if nfail[n] > 0 {
+				classes["benign-name-with<=5-failures"] = true
+			}
+			// the scenario of a shared name: same method, other target, failing
+			for o, ko := range c.Kind {
+				if ko == 1 && o%c.NM == n%c.NM && o != n {
+					classes["benign+failing-same-method-other-target"] = true
+				}
+			}
 		}
-	} else {
-		v.Classes = append(v.Classes, fmt.Sprintf("failing-run-code-%d", c.Out[0]))
+		if kd == 1 {
+			hasF = true
+		}
 	}
+	if k > 1 {
+		classes["several-names"] = true
+	}
+	v.NonTrivial = k > 1 && hasB && hasF
+	for c := range classes {
+		v.Classes = append(v.Classes, c)
+	}
+	sort.Strings(v.Classes)
 	v.Fail = fail
 	if fail == "" && !res.OK() {
 		v.Fail = "bubble: " + res.String()
@@ -148,12 +236,27 @@ func c01Judge(t *testing.T, c c01RunCase, call func(name string, want error) (ra
 	return v
 }
 
+// ---- entry points
+
 func TestVerif_C01_grpc_client(t *testing.T) {
-	conn := new(grpc.ClientConn)
-	kit.Run(t, "C01", "grpc-client-run", kit.Opts{Quick: 400, Thorough: 8000}, c01GenRun, func(c c01RunCase) kit.Verdict {
-		return c01Judge(t, c, func(name string, want error) (bool, error) {
+	// real ClientConns (never connected: passthrough targets, no RPC is sent) created outside any bubble
+	var conns []*grpc.ClientConn
+	for _, target := range []string{"passthrough:///c01-a", "passthrough:///c01-b", "passthrough:///c01-c"} {
+		cc, err := grpc.Dial(target, grpc.WithTransportCredentials(insecure.NewCredentials()))
+		if err != nil {
+			t.Fatalf("grpc.Dial(%s): %v", target, err)
+		}
+		defer cc.Close()
+		conns = append(conns, cc)
+	}
+	if conns[0].Target() == conns[1].Target() {
+		t.Fatalf("harness: targets not distinct")
+	}
+	kit.Run(t, "C01", "grpc-client-run", kit.Opts{Quick: 300, Thorough: 6400}, c01GenRun(2, 3), func(c c01RunCase) kit.Verdict {
+		return c01Judge(t, c, func(run int64, ti, mi int, want error) (bool, error) {
 			ran := false
-			err := BreakerInterceptor(context.Background(), name, nil, nil, conn,
+			method := fmt.Sprintf("/verif.C01/run%d/m%d", run, mi)
+			err := BreakerInterceptor(context.Background(), method, nil, nil, conns[ti],
 				func(ctx context.Context, method string, req, reply interface{}, cc *grpc.ClientConn, opts ...grpc.CallOption) error {
 					ran = true
 					return want
